@@ -8,7 +8,9 @@ Spec:  spec/PoolImap.tla (Layer B): tasks, workers, Dispatch / Complete(i) / Del
        spec/MIndexTrace.tla (Layer C): scenario table (lattice system x texture class x size x
        transformation) and the law on integer measures: relations (permutation, frame rotation,
        two-fold relabelling) within 1e-6 + Flips/P, range, 6-sigma sampling bound for uniform
-       textures, single-orientation >= 0.99, theoretical density integrates to 1 within 1e-3.
+       textures, single-orientation >= 0.99, theoretical density integrates to 1 within 1e-3;
+       edge textures with pairs exactly at theta_max (closed end of the range): closed form of M
+       for mutually half-turned triclinic grains, relations without flip allowance.
 Bind:  (spec -> code) a pool object whose completion and delivery order replay the TLC schedules
        is passed as pool= to the real misorientation_indices; the result must equal
        [misorientation_index(s) for s in stack] bit for bit, in snapshot order; real process pools
@@ -37,11 +39,11 @@ from harness.common import SEED, Check, MachineryError, cap, parse_printed_json,
 PID = "C14"
 TLC_WORKERS = int(os.environ.get("VERIF_TLC_WORKERS", "8") or 8)  # other checks share the machine
 EVAL_WORKERS = int(os.environ.get("VERIF_EVAL_WORKERS", "8") or 8)
-TEXTURES = ("uniform", "single", "clustered", "girdle")
+TEXTURES = ("uniform", "single", "clustered", "girdle", "halfturn", "twinned")
 AXIS_ROW = {"a": 0, "b": 1, "c": 2}
 TRACE_DEFECT = "trace-"
 CLAUSES = ("raises", "finite", "range", "permutation", "frame-rotation", "twofold-relabelling",
-           "uniform-near-0", "single-near-1", "theory-raises", "theory-integral")
+           "uniform-near-0", "single-near-1", "halfturn-closed-form", "theory-raises", "theory-integral")
 
 
 # ----------------------------------------------------------------------------- concretisation
@@ -63,6 +65,13 @@ def texture(cls, n, rng):
 
     if cls == "uniform":
         return _random_rotations(n, rng).as_matrix()
+    if cls == "halfturn":  # n of {identity, two-folds about x, y, z}: every pair is an exact half-turn apart
+        pick = np.sort(rng.choice(4, size=n, replace=False))
+        return Rotation.from_quat(np.eye(4)[[3, 0, 1, 2]][pick]).as_matrix()
+    if cls == "twinned":  # n/2 random grains and their exact half-turn partners q -> q * (half-turn about z)
+        q = _random_rotations(n // 2, rng).as_quat().astype(np.float32).astype(np.float64)  # float32-exact components,
+        twin = np.column_stack([q[:, 1], -q[:, 0], q[:, 3], -q[:, 2]])  # so <q, twin> = 0 in the float32 arithmetic of the histogram
+        return Rotation.from_quat(np.vstack([q, twin])).as_matrix()
     base = _random_rotations(1, rng)
     if cls == "single":
         return np.repeat(base.as_matrix(), n, axis=0)
@@ -122,12 +131,30 @@ def call_index(o, system):
         return type(ex).__name__, float("nan")
 
 
+def theory_leaves(sc):
+    """Leaves of the closed form the spec states for the halfturn class: sum of the theoretical bin masses and
+    the mass of the last bin, evaluated with the real misorientations_random on the 1-degree bins."""
+    fn, tmax = impl()["stats"].misorientations_random, int(sc["theta_max"])
+    try:
+        system = lattice(sc["system"])
+        masses = [float(fn(float(k), float(k + 1), system)) for k in range(tmax)]
+        tsum, tlast = float(np.sum(masses)), masses[-1]
+        if not (np.isfinite(tsum) and np.isfinite(tlast) and 0.0 <= tsum <= 2.0 and 0.0 <= tlast <= 2.0):
+            return dict(texc="not-finite", tsum_e6=0, tlast_e6=0)
+        return dict(texc="None", tsum_e6=int(round(tsum * 1e6)), tlast_e6=int(round(tlast * 1e6)))
+    except Exception as ex:  # noqa: BLE001
+        return dict(texc=type(ex).__name__, tsum_e6=0, tlast_e6=0)
+
+
 def base_line(sc, exc, m):
     fin = bool(exc == "None" and np.isfinite(m))
-    return dict(ev="base", system=sc["system"], texture=sc["texture"], n=sc["n"], exc=exc, finite=fin,
-                m_e6=cap(min(max(m, 0.0), 2.0) * 1e6) if fin else 0,
+    line = dict(ev="base", system=sc["system"], texture=sc["texture"], n=sc["n"], exc=exc, finite=fin,
+                m_e6=(int(round(min(max(m, 0.0), 2.0) * 1e6)) if sc["texture"] == "halfturn" else cap(min(max(m, 0.0), 2.0) * 1e6)) if fin else 0,
                 below0_e6=cap(max(0.0, -m) * 1e6) if fin else 0,
                 above1_e6=cap(max(0.0, m - 1.0) * 1e6) if fin else 0)
+    if sc["texture"] == "halfturn":
+        line.update(theory_leaves(sc))
+    return line
 
 
 def index_units(sc, salt, only_base):
@@ -546,6 +573,21 @@ def run_trace_controls(chk, d):
         ("theory-off", [theory(fine=1001)], ("theory-integral",)),
         ("theory-nan", [theory(finite=False, fine=0)], ("theory-integral",)),
         ("theory-raised", [theory(exc="AssertionError", finite=False)], ("theory-raises",)),
+        # halfturn class (triclinic): T = 1.000000, t_L = 0.011110 -> M = (T - t_L + |t_L - 1|)/2 = 0.988890
+        ("clean-halfturn", [base(system="triclinic", tex="halfturn", n=3, m=988890, texc="None", tsum_e6=1000000, tlast_e6=11110),
+                            pair("frame-generic", [1000]), pair("permutation", [0])], ()),
+        ("clean-halfturn-edge-of-tolerance", [base(system="triclinic", tex="halfturn", n=4, m=988900, texc="None", tsum_e6=1000000, tlast_e6=11110)], ()),
+        ("halfturn-mass-lost", [base(system="triclinic", tex="halfturn", n=3, m=983300, texc="None", tsum_e6=1000000, tlast_e6=11110)], ("halfturn-closed-form",)),
+        ("halfturn-just-off", [base(system="triclinic", tex="halfturn", n=2, m=988901, texc="None", tsum_e6=1000000, tlast_e6=11110)], ("halfturn-closed-form",)),
+        ("halfturn-nan", [base(system="triclinic", tex="halfturn", n=3, m=0, finite=False, texc="None", tsum_e6=1000000, tlast_e6=11110)], ("finite",)),
+        ("halfturn-frame-moves-no-flip-allowance", [base(system="triclinic", tex="halfturn", n=3, m=988890, texc="None", tsum_e6=1000000, tlast_e6=11110),
+                                                    pair("frame-generic", [1001])], ("frame-rotation",)),
+        ("halfturn-transformed-nan", [base(system="triclinic", tex="halfturn", n=2, m=988890, texc="None", tsum_e6=1000000, tlast_e6=11110),
+                                      pair("frame-quarter", [2000000000], finite=False)], ("finite",)),
+        ("twinned-frame-moves", [base(system="triclinic", tex="twinned", n=80, m=90000), pair("frame-generic", [6000000])], ("frame-rotation",)),
+        ("clean-twinned", [base(system="triclinic", tex="twinned", n=80, m=90000), pair("frame-generic", [600000])], ()),
+        ("halfturn-without-leaves", [base(system="triclinic", tex="halfturn", n=3, m=988890)], ("trace-halfturn-without-leaves",)),
+        ("edge-texture-on-symmetric-system", [base(system="orthorhombic", tex="twinned", n=80)], ("trace-unknown-scenario-class",)),
         ("pair-without-base", [pair("permutation", [0])], ("trace-pair-without-base",)),
         ("wrong-axes", [base(system="rhombohedral"), pair("twofold-one", [0, 0, 0], abc)], ("trace-wrong-twofold-axes",)),
     ]
@@ -702,6 +744,9 @@ def main(tier):
                         chk.maximum(f"M_outside_unit_interval_e6[{sy}]", max(ln["below0_e6"], ln["above1_e6"]))
                         if s["texture"] == "uniform" and (tid, line0[tid] + 1 + k) not in skip_lines:
                             chk.maximum(f"M_uniform[{sy}][n={s['n']}]", ln["m_e6"] / 1e6)
+                        if s["texture"] == "halfturn" and ln.get("texc") == "None":
+                            judged(sy, "halfturn-closed-form", "halfturn-closed-form" in cl)
+                            chk.maximum(f"halfturn_closed_form_dev_e6[{sy}]", abs(2 * ln["m_e6"] - (ln["tsum_e6"] - ln["tlast_e6"] + abs(ln["tlast_e6"] - 1_000_000))) / 2)
                         if s["texture"] == "single":
                             judged(sy, "single-near-1", "single-near-1" in cl)
                             chk.maximum(f"one_minus_M_single_e6[{sy}]", 1_000_000 - ln["m_e6"])
@@ -791,6 +836,8 @@ def main(tier):
         print(f"  {sy:13s} " + "  ".join(f"{c}={table[sy][c]}" for c in CLAUSES if c in table[sy]))
     first = next(s for s in scen if s["kind"] == "index" and s["system"] == "triclinic" and s["texture"] == "clustered" and s["n"] >= 20)
     chk.sample(dict(kind="index-trace", scenario={k: first[k] for k in ("system", "texture", "n", "rep", "relations")}, lines=results[first["sid"]][0][:3], values=results[first["sid"]][1]))
+    ht = next(s for s in scen if s["kind"] == "index" and s["texture"] == "halfturn" and s["n"] == 3)
+    chk.sample(dict(kind="index-trace", scenario={k: ht[k] for k in ("system", "texture", "n", "rep", "relations")}, lines=results[ht["sid"]][0][:2], values=results[ht["sid"]][1]))
     th = next(s for s in scen if s["kind"] == "theory" and s["system"] == "triclinic")
     chk.sample(dict(kind="theory-trace", scenario=th["system"], lines=results[th["sid"]][0], values=results[th["sid"]][1]))
     chk.cov["timing_s"] = dict(tlc_and_pool=round(t_pool - t_start, 1), scenarios=round(time.time() - t_pool, 1),
@@ -798,7 +845,8 @@ def main(tier):
     return chk.finish(
         rule="pool: every TLC-emitted imap schedule (n<=4, w<=3; quick: all with n<=3 + a seeded sample of n=4) replayed through the real misorientation_indices, "
         "distinct by event sequence; real pools by (system, stack form, ncpus); "
-        "index: lattice system x texture class (uniform, single, clustered, girdle) x size x seeded repetition x relation "
+        "index: lattice system x texture class (uniform, single, clustered, girdle; for the triclinic system also halfturn = 2..4 mutually "
+        "half-turned orientations and twinned = random grains with exact half-turn partners, i.e. pairs exactly at theta_max) x size x seeded repetition x relation "
         "(permutation, generic / quarter-turn frame rotation, two-fold relabelling of one grain / half the grains about each candidate axis), distinct by that tuple; "
         "theory: one quadrature per lattice system",
         exhaustive=False,
